@@ -724,6 +724,19 @@ class _Canon(ast.NodeTransformer):
                 return False
         return True
 
+    @staticmethod
+    def _first_iterable_or_plain(value: ast.AST, name: str) -> bool:
+        """The single read of `name` in `value` is evaluated exactly once and unconditionally: not inside a comprehension except as the
+        iterable of its first `for` (which is evaluated when the comprehension is created)."""
+        for c in ast.walk(value):
+            if isinstance(c, (ast.ListComp, ast.SetComp, ast.GeneratorExp, ast.DictComp)):
+                inside = [x for x in ast.walk(c) if isinstance(x, ast.Name) and x.id == name]
+                if inside:
+                    first_iter = [x for x in ast.walk(c.generators[0].iter) if isinstance(x, ast.Name) and x.id == name]
+                    if len(first_iter) != len(inside):
+                        return False
+        return True
+
     def _single_use_temp(self, name: str, test: ast.AST) -> bool:
         stack = self.__dict__.get("_fn_stack") or []
         if not stack:
@@ -783,6 +796,24 @@ class _Canon(ast.NodeTransformer):
                         for x in ast.walk(nxt):
                             if isinstance(x, ast.Name) and x.id == name and isinstance(x.ctx, ast.Load):
                                 x.id = repl
+                        i += 1
+                        continue
+                    # a temporary read once by the assignment that directly follows, whose right-hand side does nothing else that could
+                    # interfere (only builtins around it): `ts = seq.times_of(K)` / `found = any(t[0] == 0 for t in ts)`
+                    if isinstance(st, ast.Assign) and len(st.targets) == 1 and isinstance(st.targets[0], ast.Name) and isinstance(nxt, ast.Assign) \
+                            and len(nxt.targets) == 1 and isinstance(nxt.targets[0], ast.Name) and nxt.targets[0].id != st.targets[0].id \
+                            and self._single_use_temp(st.targets[0].id, nxt.value) and isinstance(st.value, ast.Call) \
+                            and all((isinstance(c_.func, ast.Name) and c_.func.id in self._PURE_CALLS) for c_ in ast.walk(nxt.value) if isinstance(c_, ast.Call)) \
+                            and not any(isinstance(x, (ast.Lambda, ast.IfExp, ast.BoolOp)) for x in ast.walk(nxt.value)) \
+                            and self._first_iterable_or_plain(nxt.value, st.targets[0].id):
+                        name = st.targets[0].id
+
+                        class _Sub2(ast.NodeTransformer):
+                            def visit_Name(self2, n):
+                                if n.id == name and isinstance(n.ctx, ast.Load):
+                                    return ast.copy_location(st.value, n)
+                                return n
+                        nxt.value = _Sub2().visit(nxt.value)
                         i += 1
                         continue
                     # a value built into a temporary that the next statement uses once, as an argument of its own call
